@@ -314,7 +314,9 @@ func (m *monRoll) checkBudget(s *Sim, t *Task, v *SyncView, f *syncFacts, maxU i
 			// maxUnavailable more nodes down while the previous ones are still terminating);
 			// an up-to-date Terminating pod is judged leniently by its Ready condition
 			outdatedTerminating := terminating(p) && letterOfPod(p) != letterOfTpl(&v.ERS.Spec.Template)
-			if podReady(p) && !outdatedTerminating {
+			// a pod Terminating past its grace period is stuck (its node stopped answering): a Ready
+			// condition it still shows is stale, the node has no available pod
+			if podReady(p) && !outdatedTerminating && !stuckPod(p, now) {
 				avail = true
 			}
 			if stuckPod(p, now) {
